@@ -4,10 +4,22 @@ use simcore::runner::{Job, Plan};
 use simcore::Tier;
 
 fn job(sim: &str, profile: &str, runs: u64) -> Job {
-	Job { sim: sim.to_string(), profile: profile.to_string(), runs }
+	Job { sim: sim.to_string(), profile: profile.to_string(), runs, exe: None }
 }
 
-pub fn plan_for(prop: &str, tier: Tier, seed: u64) -> Option<Plan> {
+/// Worker executable of simulations built in a separate cargo workspace.
+pub fn external_exe(sim: &str, verif_dir: &str) -> Option<String> {
+	match sim {
+		"storesim" => Some(format!("{}/sim-store/target/release/store_worker", verif_dir)),
+		_ => None,
+	}
+}
+
+fn xjob(sim: &str, profile: &str, runs: u64, verif_dir: &str) -> Job {
+	Job { sim: sim.to_string(), profile: profile.to_string(), runs, exe: external_exe(sim, verif_dir) }
+}
+
+pub fn plan_for(prop: &str, tier: Tier, seed: u64, verif_dir: &str) -> Option<Plan> {
 	let q = tier == Tier::Quick;
 	let scale: u64 = std::env::var("VERIF_SCALE").ok().and_then(|s| s.parse().ok()).unwrap_or(100);
 	let n = |quick: u64, thorough: u64| -> u64 { ((if q { quick } else { thorough }) * scale / 100).max(1) };
@@ -51,6 +63,20 @@ pub fn plan_for(prop: &str, tier: Tier, seed: u64) -> Option<Plan> {
 			tier,
 			seed,
 			jobs: vec![job("lnsim", "forward", n(600, 20000))],
+			level: "exploration".into(),
+			rule: "TODO".into(),
+			assumptions: t_assumptions.clone(),
+			probes: vec![],
+			exhaustive: false,
+		},
+		"C19" => Plan {
+			property: "C19".into(),
+			tier,
+			seed,
+			jobs: vec![
+				xjob("storesim", "v1", n(12000, 300000), verif_dir),
+				xjob("storesim", "v2", n(12000, 300000), verif_dir),
+			],
 			level: "exploration".into(),
 			rule: "TODO".into(),
 			assumptions: t_assumptions.clone(),
